@@ -11,17 +11,20 @@ from mc import robotdrv as R
 PID = "C10"
 
 BASE_SRC = "class K_mbase:\n    inherited = will_reset_to('inh')\n    redecl = will_reset_to('base')\n    shadowed = will_reset_to('marker')\n\n"
-C0_SRC = "    flag = will_reset_to(0)\n    mark2 = will_reset_to('x')\n    other = 'keep'\n"
+C0_SRC = "    flag = will_reset_to(0)\n    mark2 = will_reset_to('x')\n    other = 'keep'\n    opt = will_reset_to(None)\n"
+# (component, attribute) pairs whose "write" is a deletion (del comp.attr): the reset must bring the default back all the same
+DELS = {("c0", "opt")}
+DELETED = "<deleted>"
 C1_SRC = "    flag = will_reset_to(-1)\n    other = 'keep1'\n    redecl = will_reset_to('derived')\n    shadowed = 'plain'\n"
 ATTRS3 = [("cb", "inherited", "inh", True), ("cb", "redecl", "base", True), ("cb", "shadowed", "marker", True)]
-ATTRS2 = [("c2", "flag", 0, True), ("c2", "mark2", "x", True), ("c2", "other", "keep", False)]
-ATTRS = [("c0", "flag", 0, True), ("c0", "mark2", "x", True), ("c0", "other", "keep", False), ("c1", "flag", -1, True), ("c1", "inherited", "inh", True), ("c1", "other", "keep1", False), ("c1", "redecl", "derived", True), ("c1", "shadowed", "plain", False)]
+ATTRS2 = [("c2", "flag", 0, True), ("c2", "mark2", "x", True), ("c2", "other", "keep", False), ("c2", "opt", None, True)]
+ATTRS = [("c0", "flag", 0, True), ("c0", "mark2", "x", True), ("c0", "other", "keep", False), ("c0", "opt", None, True), ("c1", "flag", -1, True), ("c1", "inherited", "inh", True), ("c1", "other", "keep1", False), ("c1", "redecl", "derived", True), ("c1", "shadowed", "plain", False)]
 # writers: site -> list of (component, attribute)
 WRITERS = [
     ("teleopPeriodic", [("c1", "flag"), ("c0", "mark2"), ("c1", "redecl")]),
     ("mode.on_iteration", [("c0", "flag"), ("c1", "inherited")]),
     ("c0.execute", [("c1", "flag"), ("c1", "other"), ("c1", "shadowed")]),
-    ("c1.execute", [("c0", "flag"), ("c0", "other"), ("c1", "inherited")]),
+    ("c1.execute", [("c0", "flag"), ("c0", "other"), ("c1", "inherited"), ("c0", "opt")]),
 ]
 
 
@@ -88,13 +91,20 @@ class Hook:
         snap = []
         attrs = ATTRS + (ATTRS2 if hasattr(r, "c2") else []) + (ATTRS3 if hasattr(r, "cb") else []) + (ATTRS4 if hasattr(r, "c3") else [])
         for comp, attr, _d, _m in attrs:
-            snap.append(getattr(getattr(r, comp), attr, "<missing>"))
+            v = getattr(getattr(r, comp), attr, "<missing>")
+            snap.append(DELETED if type(v).__name__ == "will_reset_to" else v)
         rec[2] = snap
         w = self.writers.get(site)
         if w:
             val = f"{site}#{n}"
             for comp, attr in w + (EXTRA_WRITES.get(site, []) if hasattr(r, "c2") else []) + (EXTRA_WRITES3.get(site, []) if hasattr(r, "cb") else []) + (EXTRA_WRITES4.get(site, []) if hasattr(r, "c3") else []):
-                setattr(getattr(r, comp), attr, val)
+                if (comp, attr) in DELS:
+                    try:
+                        delattr(getattr(r, comp), attr)
+                    except AttributeError:
+                        pass
+                else:
+                    setattr(getattr(r, comp), attr, val)
 
 
 def check(lay, h, life, writers):
@@ -134,7 +144,7 @@ def check(lay, h, life, writers):
                 out.append((f"{kind}:{name.split('.')[1] if marked else 'other'}", f"history {h!r} step {k} (mode {st['mode']}), in {site}: {name} = {got!r}, expected {e!r}"))
                 return out
             for comp, attr in wr.get(site, ()):
-                state[(comp, attr)] = f"{site}#{cnt[site]}"
+                state[(comp, attr)] = DELETED if (comp, attr) in DELS else f"{site}#{cnt[site]}"
         if st["mode"] in ("a", "t"):
             for c, a, d, m in ATTRS:
                 if m:
